@@ -236,3 +236,39 @@ def behaviours(module, cfg, simulate=None, depth=None, seed=None, timeout=1800, 
         txt = m.group(1).replace('\\"', '"').replace("\\\\", "\\")
         hs.append(json.loads(txt))
     return hs, r
+
+
+def generate(module, consts, timeout=3000, xmx="6g"):
+    """Let TLC evaluate a Gen_* module (ASSUME ndJsonSerialize(IOEnv.OUT_FILE, ...)) and return the
+    parsed lines.  Results are cached in the scratch area keyed by the content of all specs and
+    the constants, so repeated checks do not re-enumerate an unchanged space."""
+    import glob
+    import hashlib
+    h = hashlib.sha256()
+    for f in sorted(glob.glob(os.path.join(SPECS, "*.tla"))):
+        with open(f, "rb") as fh:
+            h.update(fh.read())
+    h.update(json.dumps([module, consts], sort_keys=True).encode())
+    cdir = os.path.join(os.path.dirname(SCRATCH), "gen-cache")
+    os.makedirs(cdir, exist_ok=True)
+    out = os.path.join(cdir, f"{module}-{h.hexdigest()[:20]}.ndjson")
+    if not os.path.exists(out):
+        for old in glob.glob(os.path.join(cdir, f"{module}-*.ndjson")):
+            if time.time() - os.path.getmtime(old) > 6 * 3600:
+                os.remove(old)
+        os.makedirs(SCRATCH, exist_ok=True)
+        cfg = os.path.join(SCRATCH, f"{module}-{os.getpid()}.cfg")
+        write_cfg(cfg, consts=consts)
+        md = _metadir()
+        tmp = out + f".{os.getpid()}.tmp"
+        try:
+            rc, txt, _ = _java(["-config", cfg, "-workers", "1", "-metadir", md, "-noGenerateSpecTE", module + ".tla"],
+                               env_extra={"OUT_FILE": tmp}, timeout=timeout, serial=True, xmx=xmx)
+        finally:
+            shutil.rmtree(md, ignore_errors=True)
+            os.remove(cfg)
+        if rc != 0:
+            raise TlcError(f"{module} enumeration failed:\n" + txt[-2500:])
+        os.replace(tmp, out)
+    with open(out) as fh:
+        return [json.loads(x) for x in fh if x.strip()]
